@@ -25,7 +25,7 @@ ASSUMPTIONS = [
 ]
 REACH = {"quick": {"len:0": 100, "na:all": 100, "kind:lstr": 100, "kind:ostr": 50, "fn:rank": 1000, "fn:sort": 1000, "fn:unique": 500, "tag:big": 5, "after-inplace-edit": 1000}}
 
-KINDS = ["bool", "int", "float", "str", "str", "lstr", "ustr", "date", "datetime", "ostr", "obool", "timedelta", "int_be", "float_be", "datetime_be", "tstr", "longdouble"]
+KINDS = ["bool", "int", "float", "str", "str", "lstr", "ustr", "date", "datetime", "ostr", "obool", "timedelta", "int_be", "float_be", "datetime_be", "tstr", "longdouble", "datetime_ns", "datetime_s"]
 
 def generate(rng, tier):
     if rng.random() < 0.002:
